@@ -464,8 +464,17 @@ def rule_reg_live(db: ProgramDB) -> List[Instance]:
     if rm is not None and rm.cls is var and marks:
         drops = [a for a in own_nodes(rm.node) if isinstance(a, ast.Assign) and any(isinstance(t, ast.Attribute) and unparse(t.value) == "self"
                  and t.attr in ("_domain_", "_domain_source_") for t in a.targets)]
+        from ..boolexpr import eval_bool
+
+        class _Any(dict):
+            def __missing__(self, k):
+                return True
+        by_target: Dict[str, List[ast.Assign]] = {}
         for a in drops:
-            gs = guards_of(a, rm.node.body) or []
+            by_target.setdefault([t.attr for t in a.targets if isinstance(t, ast.Attribute)][0], []).append(a)
+        for tgt, group in sorted(by_target.items()):
+            # the field may be dropped at several places (for the registry's domain, for a domain given as an expression): what matters is that
+            # ONE of them is reached whenever the mark is set
             atoms: List[str] = []
 
             def atom_of(e):
@@ -477,21 +486,18 @@ def rule_reg_live(db: ProgramDB) -> List[Instance]:
                         atoms.append(u)
                     return u
                 return None
-            from ..boolexpr import eval_bool
-
-            class _Any(dict):
-                def __missing__(self, k):
-                    return True
-            for g, _ in gs:                        # collects the atoms (both values, so that no operand is short-cut away)
-                eval_bool(g, atom_of, _Any())
+            all_gs = [guards_of(a, rm.node.body) or [] for a in group]
+            for gs in all_gs:
+                for g, _ in gs:                        # collects the atoms (both values, so that no operand is short-cut away)
+                    eval_bool(g, atom_of, _Any())
             mark_atoms = [x for x in atoms if x in {f"self.{k}" for k in marks}]
-            tbl = guard_table(gs, atom_of, atoms) if atoms else {(): True}
-            bad_rows = [vals for vals, reached in tbl.items() if not reached and mark_atoms and all(vals[atoms.index(k)] for k in mark_atoms)]
-            tgt = [t.attr for t in a.targets if isinstance(t, ast.Attribute)][0]
-            if not mark_atoms and gs:
+            a = group[0]
+            if not mark_atoms and all(all_gs):
                 out.append(inst("REG-LIVE", UNDECIDED, rm, f"{rm.short}[{tgt} dropped whenever the domain is the registry's]",
-                                f"`{unparse(a)}` is guarded by {[unparse(g) for g, _ in gs]}, none of which is the mark {sorted(marks)}", line=a.lineno))
+                                f"`{unparse(a)}` is guarded by {[unparse(g) for g, _ in all_gs[0]]}, none of which is the mark {sorted(marks)}", line=a.lineno))
                 continue
+            tables = [guard_table(gs, atom_of, atoms) if atoms else {(): True} for gs in all_gs]
+            bad_rows = [vals for vals in tables[0] if mark_atoms and all(vals[atoms.index(k)] for k in mark_atoms) and not any(t.get(vals, False) for t in tables)]
             if bad_rows:
                 others = [x for x in atoms if x not in mark_atoms]
                 out.append(inst("REG-LIVE", VIOLATION, rm, f"{rm.short}[{tgt} dropped whenever the domain is the registry's]",
@@ -763,3 +769,48 @@ def rule_reg_snapshot(db: ProgramDB) -> List[Instance]:
                     f"a FollowUp of the same run (3 instances for 2 satisfying assignments)", line=bad[0].lineno if bad else y.lineno))
     return out
 
+
+
+# ---------------------------------------------------------------------------------- REG-OWN-CLASS
+def rule_reg_own_class(db: ProgramDB) -> List[Instance]:
+    """An instance is filed in the store of ITS class: that is where a variable of that class looks, and the stores of the subclasses
+    are how a variable of a base class finds it.  The class the constructor was called on is the class of the instance when the package
+    allocates it; when the user's `__new__` allocates it, it is whatever that returned (a factory returns a subclass: Python runs the
+    subclass's __init__ on it).  Path rule: from the allocation by a user `__new__` to the insertion into the registry, the class used
+    as the key is re-read from the instance (`type(instance)`)."""
+    out = []
+    fn = db.fn("predicate:instantiate_class_and_update_cache")
+    cfg = CFG(fn)
+    cp = fn.positional_params[0]
+    allocs = []
+    for nd in cfg.nodes:
+        if nd.kind == "stmt" and isinstance(nd.ast, ast.Assign) and isinstance(nd.ast.value, ast.Call) and isinstance(nd.ast.value.func, ast.Name) \
+                and nd.ast.value.func.id in fn.positional_params and (len(nd.ast.value.args) > 1 or any(isinstance(a, ast.Starred) for a in nd.ast.value.args)):
+            allocs.append(nd)
+    inserts = [nd for nd in cfg.nodes if nd.ast is not None and nd.kind == "stmt" and any(isinstance(c, ast.Call) and call_attr(c) == "insert" for c in ast.walk(nd.ast))]
+    if not allocs or not inserts:
+        raise AnalysisError("instantiate_class_and_update_cache: the allocation by the class's own __new__ / the insertion into the registry was not found")
+    for al in allocs:
+        inst_name = unparse(al.ast.targets[0])
+
+        def rereads(nd, inst_name=inst_name):
+            if nd.ast is None or nd.kind != "stmt":
+                return False
+            return isinstance(nd.ast, ast.Assign) and any(isinstance(t, ast.Name) and t.id == cp for t in nd.ast.targets) and \
+                any(isinstance(c, ast.Call) and isinstance(c.func, ast.Name) and c.func.id == "type" and c.args and unparse(c.args[0]) == inst_name for c in ast.walk(nd.ast.value)) \
+                or (isinstance(nd.ast, ast.Assign) and any(isinstance(t, ast.Name) and t.id == cp for t in nd.ast.targets) and unparse(nd.ast.value) == f"{inst_name}.__class__")
+
+        def keyed_by_instance(nd, inst_name=inst_name):
+            return any(isinstance(s_, ast.Subscript) and f"type({inst_name})" in unparse(s_.slice) for s_ in ast.walk(nd.ast))
+        bad = None
+        for ins in inserts:
+            if keyed_by_instance(ins):
+                continue
+            p = cfg.find_path(al.id, lambda nd, ins=ins: nd.id == ins.id, kinds=("n",), blocked=rereads)
+            if p is not None:
+                bad = (ins, p)
+        out.append(inst("REG-OWN-CLASS", VIOLATION if bad else HOLDS, fn, "instantiate_class_and_update_cache[an instance allocated by the user's __new__ is filed under its own class]",
+                        "the class used as the key of the store is re-read from the instance after the user's __new__ returned it" if not bad else
+                        f"`{bad[0].src()[:70]}` files what `{al.src()[:50]}` returned under `{cp}`, the class the constructor was called on: a factory __new__ that returns an "
+                        f"instance of a subclass (F('g') building a G) leaves it in F's store only, and let(G) does not range over it", line=(bad[0] if bad else al).lineno))
+    return out
